@@ -87,6 +87,11 @@ def make_stream(kind, rng):
         data(4, 127, 255, False, 300, session=0xFFFF)
         lt(5)
         data(6, 0, 0, True, 3)
+    elif kind.startswith("big:"):
+        # one body around / above 1 MiB (the size of the sender's packets -- no limit for a message), followed by small frames
+        data(1, 6, 11, True, int(kind[4:]))
+        lt(2)
+        data(3, 1, 1, False, 5)
     else:  # random
         n = rng.randint(2, 8)
         for i in range(1, n + 1):
@@ -248,6 +253,12 @@ def run(ctx: Ctx):
                     add(kind, 0, ([a] if a else []) + [k, total - a - k])
     for i in range(300 if ctx.quick else 4000):
         add("random", rng.randrange(1 << 30), None)
+    mib = 1024 * 1024
+    for blen in ((mib - 10, mib - 9, mib + mib // 2) if ctx.quick else (mib - 11, mib - 10, mib - 9, mib, mib + mib // 2, 3 * mib, 16 * mib + 3)):
+        total = sum(len(f) for f, _ in make_stream(f"big:{blen}", random.Random(0)))
+        for piece in ((65536,) if ctx.quick else (65536, 1000003)):
+            add(f"big:{blen}", 0, [piece] * (total // piece) + ([total % piece] if total % piece else []))
+        add(f"big:{blen}", 0, [total])
     jobs = []
     for b, ch in enumerate(chunks(items, 28 if ctx.quick else 56)):
         pol = ["fifo", "random", "pct"][b % 3]
